@@ -4,11 +4,12 @@ CONSTANTS
  MaxQ = 23
  MaxK = 7
  Margin = 4
- Variants <- A_two
+ Variants <- A_twoq
  NaiveMaxP = 11
  NaiveVariants <- D_two
+ AccMaxP = 1000
  NbrMaxP = 31
- NbrVariants <- N_two
+ NbrVariants <- A_twoq
  Mode = "nbr"
  CheckArith = FALSE
  SortedBases = TRUE
